@@ -510,6 +510,8 @@ def run(chk, P):
     chk.floor('R07.6', 3)
     r07_7(chk, P)
     chk.floor('R07.7', 1)
+    import typestate
+    typestate.c07(chk, P)
     r07_8(chk, P)
     chk.floor('R07.8', 2)
     r07_12(chk, P)
